@@ -476,8 +476,26 @@ class Interp:
                         old = holder.items[idx.c]
                     except IndexError:
                         return
-                    holder.items[idx.c] = old.copy(
-                        orth=None, taint=old.taint | res.taint, lg=None)
+                    new = old.copy(orth=None, taint=old.taint | res.taint,
+                                   lg=None)
+                    if isinstance(st, ast.Assign):
+                        # plain store of a value into a (zero) array
+                        if old.note == 'zeros' and res.deg is not None and \
+                                (old.deg in (None, {}) or old.deg == res.deg):
+                            new.deg = res.deg
+                        elif old.deg is not None and res.deg is not None \
+                                and old.deg == res.deg:
+                            new.deg = res.deg
+                        else:
+                            new.deg = None if (res.deg or old.deg) else old.deg
+                        zero = res.has_const() and \
+                            isinstance(res.c, (int, float)) and res.c == 0
+                        if zero or (res.lg is not None and res.lg == old.lg):
+                            new.lg = old.lg
+                    else:
+                        new.deg = res.deg
+                        new.lg = res.lg
+                    holder.items[idx.c] = new
 
     def st_If(self, st, env):
         cond = self.eval(st.test, env)
